@@ -19,7 +19,7 @@ type c07Params struct {
 	Servers  int
 	Files    []int // line counts of the files (same files on every server)
 	Glob     bool  // same basename in different directories through one glob
-	LongLine int   // if >0, line 1 of file 0 has this many bytes
+	LongLine int   // if >0, line l of file 0 has this many bytes + 10000*(l-1)
 	Kind     string
 }
 
@@ -42,8 +42,9 @@ func init() {
 
 func c07Line(p c07Params, f, l int) string {
 	s := fmt.Sprintf("f%dl%d", f, l)
-	if p.LongLine > 0 && f == 0 && l == 1 {
-		s += strings.Repeat("x", p.LongLine-len(s))
+	if p.LongLine > 0 && f == 0 {
+		// every line of file 0 is longer than one transport read (two such messages per session)
+		s += strings.Repeat("x", p.LongLine+10000*(l-1)-len(s))
 	}
 	return s
 }
